@@ -10,6 +10,8 @@ def sh(cmd, e=None):
     p = subprocess.run(["bash", "-c", cmd], env=e or env, stdout=subprocess.PIPE, stderr=subprocess.STDOUT, text=True)
     return p.returncode, p.stdout
 ids = sorted(os.path.basename(os.path.dirname(p)) for p in glob.glob("/verif/benign/*/patch.diff"))
+if os.environ.get("BEN_IDS"):
+    ids = os.environ["BEN_IDS"].split()
 slots = list(range(workers))
 import queue
 q = queue.Queue()
